@@ -218,12 +218,11 @@ pub mod channel {
         )
     }
 
-    /// bounded FIFO channel of capacity `cap` (`cap == 0`, crossbeam's rendezvous channel,
-    /// is not modelled)
+    /// bounded FIFO channel of capacity `cap`.  `cap == 0` (crossbeam's rendezvous channel)
+    /// is modelled as a queue that is always full: `try_send` fails with `Full`, a blocking
+    /// `send` needs the scheduler (a rendezvous needs a receiver waiting at the same time,
+    /// which a sequential model cannot provide).
     pub fn bounded<T>(cap: usize) -> (Sender<T>, Receiver<T>) {
-        if cap == 0 {
-            panic!("VERIF-UNSUPPORTED: zero-capacity (rendezvous) channel is not modelled");
-        }
         make(cap, cap)
     }
 
